@@ -153,3 +153,35 @@ CHECKS["C18"] = dict(
     assumptions=["pairs of two fixed-size packed operands of different length are rejected by a static_assert (loud) and not instantiated"],
     min_outcomes=100,
 )
+
+E3_TECH = ("explicit-state model checking of the real objects: breadth-first search over ALL operation histories up to the depth bound, states merged on an exact "
+           "canonical form of the real object representation (object bytes + reachable heap blocks, pointers normalised), every transition executed on the "
+           "implementation and on the std:: reference model and compared; allocator balance and lifetime checked in every state")
+CHECKS["C19"] = dict(
+    level="model_checking", engine="E3", technique=E3_TECH,
+    level_note="trusted: the std:: containers as reference model, the arena allocator of engine/nmc_bfs.hpp (counts blocks, red zones, poison fill, never reuses memory "
+               "inside one history), g++ 12 (+ASan/UBSan shadow build). Bounded: histories up to the stated depth over the stated alphabet on two live objects; "
+               "longer (random) histories are not sampled.",
+    level_text="Every operation history up to depth 5 (quick) / 7 (thorough) over {default / sized(0..6) / variadic construct, copy-construct from the other object, "
+               "assign-from(other|self), push_back(1|2), resize(0..6), write(i)} on two live objects is explored by BFS for utl::vector<int|double>, "
+               "utl::static_vector<int,4>, small_vector<int,3>, utl::array<int,3>, utl::tuple/tuplev2, utl::maybe<T> and utl::either<L,R> with trivial and "
+               "non-trivial (utl::vector<int>, lifetime-tracked) alternatives; after every transition size, every element, has_value/index/get_if are compared "
+               "with std::vector/array/tuple/optional/variant (static_vector: refused beyond capacity), and in every state all objects are destroyed and the "
+               "allocator / lifetime counters must balance (no leak, no double free, no assignment into unconstructed storage).",
+    units=[
+        U("hist_vector", "harness/c19_containers.cpp", flags=["-DC19_GROUP=1"], shards=1),
+        U("hist_seq", "harness/c19_containers.cpp", flags=["-DC19_GROUP=2"], shards=1),
+        U("hist_alg", "harness/c19_containers.cpp", flags=["-DC19_GROUP=3"], shards=1),
+        U("hist_vector_san", "harness/c19_containers.cpp", flags=["-DC19_GROUP=1"], san=True, family="hist_vector", shadow=True, shards=1, run_tier="quick"),
+        U("hist_seq_san", "harness/c19_containers.cpp", flags=["-DC19_GROUP=2"], san=True, family="hist_seq", shadow=True, shards=1, run_tier="quick"),
+        U("hist_alg_san", "harness/c19_containers.cpp", flags=["-DC19_GROUP=3"], san=True, family="hist_alg", shadow=True, shards=1, run_tier="quick"),
+    ],
+    rule="state = canonical form of the two real objects reached by an operation history (BFS, merged exactly); transition = one real operation executed on "
+         "implementation and std model; non-trivial = state first reached by a history containing at least one mutating operation (copy, assign, push_back, "
+         "resize, write); distinct = distinct canonical state",
+    bounds=dict(quick="all histories of length <= 5 (vector_double, small_vector: <= 4)", thorough="all histories of length <= 7 (vector_double <= 6)"),
+    assumptions=["std::vector / std::array / std::tuple / std::optional / std::variant are the reference", "a static_vector operation beyond its capacity must be refused and leave the object unchanged (a refused sized construction yields an empty vector)",
+                 "exploration below a failing transition is pruned (the minimal failing histories are reported)"],
+    min_outcomes=1000,
+    require_counts=dict(any=dict(states=50000, transitions=200000)),
+)
